@@ -1,6 +1,7 @@
 import Spydr.IR.Props.C07
 import Spydr.IR.Props.C07Elem
 import Spydr.IR.Props.C07Struct
+import Spydr.IR.Props.C07Detached
 open Spydr.IR
 #print axioms Spydr.IR.cloneNetlist_inv
 #print axioms Spydr.IR.cloneNetlist_frame
@@ -25,3 +26,5 @@ open Spydr.IR
 #print axioms Spydr.IR.step_structEq
 #print axioms Spydr.IR.run_structEq
 #print axioms Spydr.IR.cloneElem_same_structure
+#print axioms Spydr.IR.run_parEq
+#print axioms Spydr.IR.cloneElem_detached
